@@ -244,17 +244,24 @@ class CxxParser:
 
             if tok.type in self._end_balanced_tokens:
                 expected = match_stack.pop()
-                if (
-                    tok.type == "DBL_RBRACKET"
-                    and expected == "]"
-                    and match_stack
-                    and match_stack[-1] == "]"
-                ):
+                if tok.type == "DBL_RBRACKET":
+                    # a '<' still open inside a subscript was a less-than
+                    while expected == ">" and match_stack:
+                        expected = match_stack.pop()
+                if tok.type == "DBL_RBRACKET" and expected == "]":
                     # 'a[b[0]]': the lexer fuses the two closers into one ']]'
-                    # token; take them apart again
-                    tok.type = tok.value = "]"
-                    consumed.append(copy.copy(tok))
-                    match_stack.pop()
+                    # token; take them apart again ('<' still open between
+                    # the two '[' were less-than: 'a[i < b[0]]')
+                    n_gt = 0
+                    while (
+                        n_gt < len(match_stack) and match_stack[-1 - n_gt] == ">"
+                    ):
+                        n_gt += 1
+                    if n_gt < len(match_stack) and match_stack[-1 - n_gt] == "]":
+                        tok.type = tok.value = "]"
+                        consumed.append(copy.copy(tok))
+                        for _ in range(n_gt + 1):
+                            match_stack.pop()
                 if tok.type != expected:
                     # hack: we only claim to parse correct code, so if this
                     # is less than or greater than, assume that the code is
